@@ -1,7 +1,7 @@
 // This file is based on the code by iden3. Its preimage can be found here:
 // https://github.com/iden3/circom-witnesscalc/blob/5cb365b6e4d9052ecc69d4567fcf5bc061c20e94/src/graph.rs
 
-use ark_ff::{BigInt, BigInteger, One, PrimeField, Zero};
+use ark_ff::{BigInt, BigInteger, Field, One, PrimeField, Zero};
 use ark_serialize::{CanonicalDeserialize, CanonicalSerialize, Compress, Validate};
 use rand::Rng;
 use ruint::{aliases::U256, uint};
@@ -91,7 +91,13 @@ impl Operation {
             Add => a.add_mod(b, M),
             Sub => a.add_mod(M - b, M),
             Pow => a.pow_mod(b, M),
-            Mod => a.div_rem(b).1,
+            Mod => {
+                if b == U256::ZERO {
+                    U256::ZERO
+                } else {
+                    a.div_rem(b).1
+                }
+            }
             Eq => U256::from(a == b),
             Neq => U256::from(a != b),
             Lt => u_lt(&a, &b),
@@ -104,12 +110,18 @@ impl Operation {
             Shr => compute_shr_uint(a, b),
             // TODO test with conner case when it is possible to get the number
             //      bigger then modulus
-            Bor => a.bitor(b),
+            Bor => reduce_254(a.bitor(b)),
             Band => a.bitand(b),
             // TODO test with conner case when it is possible to get the number
             //      bigger then modulus
-            Bxor => a.bitxor(b),
-            Idiv => a / b,
+            Bxor => reduce_254(a.bitxor(b)),
+            Idiv => {
+                if b == U256::ZERO {
+                    U256::ZERO
+                } else {
+                    a / b
+                }
+            }
         }
     }
 
@@ -178,8 +190,7 @@ impl Operation {
             Bor => bit_or(a, b),
             Band => bit_and(a, b),
             Bxor => bit_xor(a, b),
-            // TODO implement other operators
-            _ => unimplemented!("operator {:?} not implemented for Montgomery", self),
+            Pow => a.pow(b.into_bigint()),
         }
     }
 }
@@ -242,7 +253,7 @@ impl UnoOperation {
                     Fr::from_bigint(x).unwrap()
                 }
             }
-            _ => unimplemented!("uno operator {:?} not implemented for Montgomery", self),
+            UnoOperation::Id => a,
         }
     }
 }
@@ -383,14 +394,30 @@ impl std::fmt::Display for NodeConstErr {
 
 impl Error for NodeConstErr {}
 
+const MASK_254: U256 = U256::from_limbs([u64::MAX, u64::MAX, u64::MAX, 0x3fff_ffff_ffff_ffff]);
+
+/// Keeps the low 254 bits and reduces once modulo M (2^254 < 2 * M).
+fn reduce_254(x: U256) -> U256 {
+    let x = x.bitand(MASK_254);
+    if x >= M {
+        x - M
+    } else {
+        x
+    }
+}
+
 fn compute_shl_uint(a: U256, b: U256) -> U256 {
-    debug_assert!(b.lt(&U256::from(256)));
+    if b >= U256::from(254) {
+        return U256::ZERO;
+    }
     let ls_limb = b.as_limbs()[0];
-    a.shl(ls_limb as usize)
+    reduce_254(a.shl(ls_limb as usize))
 }
 
 fn compute_shr_uint(a: U256, b: U256) -> U256 {
-    debug_assert!(b.lt(&U256::from(256)));
+    if b >= U256::from(254) {
+        return U256::ZERO;
+    }
     let ls_limb = b.as_limbs()[0];
     a.shr(ls_limb as usize)
 }
@@ -671,8 +698,12 @@ fn shl(a: Fr, b: Fr) -> Fr {
     }
 
     let n = b.into_bigint().0[0] as u32;
-    let a = a.into_bigint();
-    Fr::from_bigint(a << n).unwrap()
+    let mut d = a.into_bigint() << n;
+    d.0[3] &= 0x3fff_ffff_ffff_ffff;
+    if d >= Fr::MODULUS {
+        d.sub_with_borrow(&Fr::MODULUS);
+    }
+    Fr::from_bigint(d).unwrap()
 }
 
 fn shr(a: Fr, b: Fr) -> Fr {
@@ -722,7 +753,7 @@ fn bit_and(a: Fr, b: Fr) -> Fr {
         a.0[3] & b.0[3],
     ];
     let mut d: BigInt<4> = BigInt::new(c);
-    if d > Fr::MODULUS {
+    if d >= Fr::MODULUS {
         d.sub_with_borrow(&Fr::MODULUS);
     }
 
@@ -739,7 +770,7 @@ fn bit_or(a: Fr, b: Fr) -> Fr {
         a.0[3] | b.0[3],
     ];
     let mut d: BigInt<4> = BigInt::new(c);
-    if d > Fr::MODULUS {
+    if d >= Fr::MODULUS {
         d.sub_with_borrow(&Fr::MODULUS);
     }
 
@@ -756,7 +787,7 @@ fn bit_xor(a: Fr, b: Fr) -> Fr {
         a.0[3] ^ b.0[3],
     ];
     let mut d: BigInt<4> = BigInt::new(c);
-    if d > Fr::MODULUS {
+    if d >= Fr::MODULUS {
         d.sub_with_borrow(&Fr::MODULUS);
     }
 
